@@ -395,17 +395,21 @@ class ASTSchemaPrinter:
     def print_schema_definition(self, schema: Schema) -> str:
         directives = self.print_directives(schema)
 
+        def _is_conventional(root_type, conventional_name):
+            # Without a schema definition, object types named Query, Mutation
+            # and Subscription are the root types: the definition can only be
+            # left out when that reading gives back the same roots.
+            if root_type is None:
+                return not isinstance(
+                    schema.types.get(conventional_name), ObjectType
+                )
+            return root_type.name == conventional_name
+
         if (
             not directives
-            and (not schema.query_type or schema.query_type.name == "Query")
-            and (
-                not schema.mutation_type
-                or schema.mutation_type.name == "Mutation"
-            )
-            and (
-                not schema.subscription_type
-                or schema.subscription_type.name == "Subscription"
-            )
+            and _is_conventional(schema.query_type, "Query")
+            and _is_conventional(schema.mutation_type, "Mutation")
+            and _is_conventional(schema.subscription_type, "Subscription")
         ):
             return ""
 
